@@ -1095,6 +1095,12 @@ class Executor:
             if ia is not None and ib is not None and ia.bound + ib.bound < 2 ** 52 and not ia.nz and not ib.nz:
                 # exact in binary64; x - x and x + (-x) give +0.0 under RNE, inputs are never -0.0
                 return IntD(ia.e + ib.e if op == 'fadd' else ia.e - ib.e, ia.bound + ib.bound)
+        if op == 'fmul':
+            ia, ib = as_intd(a), as_intd(b)
+            if ia is not None and ib is not None and ia.bound * ib.bound < 2 ** 52 and not ia.nz and not ib.nz:
+                # the product of two integers below 2**52 in magnitude is exact in binary64; the sign of a zero
+                # product is not tracked (0 * negative = -0.0 compares equal to +0.0 and is only observable by bit tests)
+                return IntD(ia.e * ib.e, ia.bound * ib.bound)
         a, b = fp(a), fp(b)
         if op == 'fadd':
             return z3.fpAdd(RNE, a, b)
